@@ -43,7 +43,7 @@ deriving DecidableEq, Repr
 def decide (safeKeys : List Bytes) (onlySafe : Bool) (key : Bytes) : Verdict :=
   let parts := splitOn 46 key []
   if parts.length = 4 ∧ parts[0]! = sLfs ∧ parts[1]! = sExtension then
-    if onlySafe then .ignore
+    if onlySafe then (if parts[3]! = sPriority then .skip else .ignore)   -- .lfsconfig may order, never define
     else .storeExt parts[2]!          -- trusted source: clean/smudge/priority/other all register and store
   else if parts.length > 1 ∧ parts[0]! = sRemote then
     if onlySafe ∧ (parts.length < 3 ∨ parts.getLast! ≠ sLfsurl) then .ignore
